@@ -95,6 +95,47 @@ SEEDS = {
    "an interval that ends exactly at sequence 2^63-1"),
  "C20-empty-nonstring-null": ("C20", "ColumnData.MarshalJSON: data null also when len(Data)==0 and the type is not a string type",
    "a TEXT/BLOB/SET/BIT/GEOMETRY column with non-nil empty data"),
+ # ---- round c ----
+ "C01-v1-update-rows-not-recognised": ("C01", "IsUpdateRows: `typ == eUpdateRowsEventV2 || typ == eUpdateRowsEventV2` (v1 type 24 no longer recognised)",
+   "a master that writes v1 row events and an UPDATE in the history: the update is dropped silently"),
+ "C03-nextposition-int32": ("C03", "NextPosition(): int64(int32(Uint32(...)))",
+   "a commit event whose header log_pos is >= 2^31"),
+ "C04-handler-error-swallowed-on-cancel": ("C04", "parseEvents commit closure: a handler error is ignored when ctx.Err() != nil and pos advances",
+   "the context is already cancelled when the handler rejects a transaction; then a restart on the same streamer"),
+ "C05-conn-not-closed-when-prepare-fails": ("C05", "newSlaveConnection: s.dc assigned only after prepareForReplication succeeds, so close() skips dc.Close() on that failure",
+   "connect succeeds, the SET @master_binlog_checksum statement fails: the connection is never closed"),
+ "C06-error-text-suffix-classification": ("C06", "Error(): clean-end classification also by strings.HasSuffix(err.Error(), cause text)",
+   "a master ERR packet whose message ends with exactly `context canceled` or `stream reached EOF`"),
+ "C07-checksum-announced-once-per-streamer": ("C07", "prepareForReplication moved into Stream behind a per-streamer `checksumSet` flag",
+   "a second or later Stream call on the same streamer: COM_BINLOG_DUMP without the SET before it"),
+ "C08-zero-year-shared": ("C08", "CellBytes YEAR: zero value returned from a package-level ZeroYear slice",
+   "two zero-YEAR cells and a handler that overwrites the delivered bytes in place"),
+ "C09-mediumblob-prefix-4-byte-load": ("C09", "cellLength blob metadata 3: binary.LittleEndian.Uint32(data[pos:]) & 0xffffff (4-byte load)",
+   "an empty non-NULL MEDIUMBLOB value that is the last cell of the last row image of the event: index out of range"),
+ "C10-enum-index-signed": ("C10", "ENUM decoding delegated to CellBytes(TypeTiny/TypeShort) with the column's signedness flag",
+   "ENUM member index >= 128 (1 byte) or >= 32768 (2 bytes) on a column not flagged unsigned"),
+ "C11-writedigits9-zero-group": ("C11", "full 9-digit groups printed by a hand-written writeDigits9 whose digit count is 0 for value 0",
+   "a padded full 9-digit group that is exactly 000000000 (integer part >= 10 digits or scale >= 9)"),
+ "C12-datetime2-ym-16bit-mask": ("C12", "DATETIME2: ym := ymd >> 5 & 0xFFFF (the year*13+month field has 17 bits)",
+   "DATETIME2 dates from 5041-03-01 up"),
+ "C13-identify-null-bit-by-column-index": ("C13", "getIdentifiesFromRow: NullIdentifyColumns.Bit(c) instead of Bit(identifyIndex)",
+   "partial before image with an absent column before a present one and a NULL among the present columns"),
+ "C14-large-object-keylen-4-bytes": ("C14", "printJSONObject: key length read with the `large` flag (4 bytes) instead of always 2 bytes",
+   "a JSON object in the large format with at least one member"),
+ "C15-bit-metadata-byte-order": ("C15", "TypeBit moved to the big-endian metadata group in metadataLength/Read/Write (library encoder flips too)",
+   "a TABLE_MAP written by a real master with a BIT(n) column, n not a multiple of 9"),
+ "C16-autoincrement-statusvar-2-bytes": ("C16", "Query(): Q_AUTO_INCREMENT advances 2 bytes instead of 4",
+   "a query event with Q_AUTO_INCREMENT (code 3) before Q_CHARSET_CODE"),
+ "C17-isvalid-min-13-bytes": ("C17", "IsValid: minimum length 13 and the `evLen < 19` half dropped",
+   "a packet of 13..18 bytes whose uint32 at offset 9 equals its own length"),
+ "C18-addgtid-merge-skipped-at-index0": ("C18", "AddGTID merge-with-previous: `last := len-1; last > 0` (skips the merge when the previous interval is at index 0)",
+   "a SID whose first two intervals are separated by exactly one missing sequence number, then AddGTID of that number"),
+ "C19-parse-coalesce-gap-of-one": ("C19", "parseMysql56GTIDSet coalesces intervals with start == prev.end+2",
+   "a set with two intervals exactly one sequence number apart (uuid:1-5:7-9): text round trip returns uuid:1-9"),
+ "C20-handmade-events-array-empty": ("C20", "Transaction.MarshalJSON appends the events by hand and overwrites the last byte with ']'",
+   "a transaction with zero events: `\"events\":]}` (malformed JSON, nil error)"),
+ "C02-autocommit-dml-not-delivered": ("C02", "parseEvents: the `if autocommit { commit(ev) }` of statement-format INSERT/UPDATE/DELETE removed as dead code",
+   "a statement-format DML query event outside BEGIN..COMMIT: merged into the next unit or dropped by the next BEGIN"),
 }
 
 def parse_detect(path):
